@@ -18,6 +18,7 @@ import (
 	_ "panmc/checks/c11"
 	_ "panmc/checks/c12"
 	_ "panmc/checks/c13"
+	_ "panmc/checks/c14"
 	_ "panmc/checks/c15"
 	_ "panmc/checks/c16"
 	_ "panmc/checks/c17"
